@@ -5,6 +5,9 @@
 (*   get_or_create(d): match SLOT[d] { Some(v) => return v,                *)
 (*                      None => INIT[d].call_once(|| SLOT[d] = Some(T::new(d))) }  *)
 (*                     match SLOT[d] { Some(v) => v, None => unreachable!() }      *)
+(* (FastPath = TRUE: the original code above.  FastPath = FALSE: the       *)
+(* repaired code, which always goes through call_once before reading the   *)
+(* slot: Check1 then reads nothing and goes straight to the Once.)         *)
 (* One action per critical section: Call, Check1 (unsynchronised fast-path *)
 (* read), EnterOnce (the Once's CAS / wait), Construct (T::new), Publish   *)
 (* (the store into the slot; in one step, or torn in two when Torn),       *)
@@ -12,7 +15,7 @@
 (* (table, depth) pairs.                                                   *)
 (***************************************************************************)
 EXTENDS Integers, Sequences, FiniteSets, TLC
-CONSTANTS Threads, Keys, MaxCalls, Torn, UseOnce
+CONSTANTS Threads, Keys, MaxCalls, Torn, UseOnce, FastPath
 None == 0
 PartialStore == -1
 TornRead == -1
@@ -31,7 +34,7 @@ Call(t, k) == /\ pc[t] = "idle" /\ calls[t] < MaxCalls
               /\ UNCHANGED <<slot, once, built, mine>>
 Check1(t) == /\ pc[t] = "check1"
              /\ LET k == arg[t] IN
-                IF slot[k] = None THEN pc' = [pc EXCEPT ![t] = "once"] /\ UNCHANGED ret
+                IF ~FastPath \/ slot[k] = None THEN pc' = [pc EXCEPT ![t] = "once"] /\ UNCHANGED ret
                 ELSE pc' = [pc EXCEPT ![t] = "ret"] /\ ret' = [ret EXCEPT ![t] = IF slot[k] = PartialStore THEN TornRead ELSE slot[k]]
              /\ UNCHANGED <<slot, once, built, arg, mine, calls>>
 EnterOnce(t) == /\ pc[t] = "once"
